@@ -45,7 +45,7 @@ SLOT_FAMILIES = {
             "swap_deep", "swap_deep_tr", "move_n", "move_n_tr", "reloc", "reloc_tr", "erase_at", "erase_at_tr"),
     "C09": ("insert_cnt_th", "resize_grow", "assign_grow", "assign_shrink", "emplace_n_th", "emplace_grow_th", "emplace_back_grow_th", "insert_n_th", "shift_left",
             "shift_right1_mt", "shift_right_cnt_mt", "shift_left_mt", "insert_n_mt", "emplace_n_mt", "erase_mt",
-            "insert_n_tr", "emplace_n_tr", "insert_cnt_tr", "insert_range_tr", "unshift_right_tr", "reloc_cp", "reloc_mt", "erase_at_mt", "swap_deep_mt",
+            "insert_n_tr", "emplace_n_tr", "insert_cnt_tr", "insert_range_tr", "unshift_right_tr", "reloc_cp", "reloc_mt", "erase_at_mt", "swap_deep_mt", "move_n_mt",
             "insert_range_in_th", "insert_range_in_tr", "insert_own_th", "insert_cnt_own_th", "push_back_own_th"),
     "C10": ("insert_own", "insert_own_th", "insert_own_tr", "insert_cnt_own_th", "insert_cnt_own_tr", "push_back_own_th", "push_back_own_tr"),
 }
